@@ -3,6 +3,8 @@
 // every step the full observable vector must be identical in all runs and equal the model's.
 #include "history_case.hpp"
 
+static bool g_self_unequal = false;  // set when a string compares unequal to itself
+
 // every observable of a value that may depend on how its strings are stored
 static void observe_value(JsonVariantConst v, std::string& out, int depth = 0) {
   if (depth > 30) return;
@@ -35,6 +37,13 @@ static void observe_value(JsonVariantConst v, std::string& out, int depth = 0) {
     std::string own(js.c_str(), js.size());
     snprintf(b, sizeof b, "=%d%d%d", (int)(v == own), (int)(own == v), (int)(v == JsonString(own.data(), own.size(), JsonString::Copied)));
     out += b;
+  }
+  if (js.c_str()) {
+    // a string equals itself, also when compared variant against variant
+    JsonVariantConst self = v;
+    bool refl = v == self && !(v != self) && !(v < self) && (v <= self);
+    if (!refl) g_self_unequal = true;
+    out += refl ? "R" : "r";
   }
   snprintf(b, sizeof b, "#%d%d%d%d%d%d|", (int)(v == 3.25), (int)(v == 1000), (int)(v < 4), (int)(v > -1.5), (int)(v == true), (int)(v == 0));
   out += b;
@@ -124,6 +133,11 @@ static void run_case(cs::Src& s, cs::Ctx& ctx) {
         std::string first;
         for (size_t wi = 0; wi < r.worlds.size(); wi++) {
           std::string vec = observable_vector(*r.worlds[wi]->docs[d]);
+          if (g_self_unequal) {
+            g_self_unequal = false;
+            ctx.current_rendering = r.log;
+            ctx.fail("string-not-equal-to-itself", "a string value does not compare equal to itself (variant against variant) in d" + std::to_string(d));
+          }
           if (wi == 0) first = vec;
           else if (vec != first) {
             // locate the first difference for the report
@@ -164,6 +178,18 @@ static void witness(const std::string& name, cs::Ctx& ctx) {
     }
     if (doc.as<std::string>() != "volatile text") ctx.fail("copy-not-independent", "doc.set(char[]) stored " + cs::quote_bytes(doc.as<std::string>()));
     if (doc.as<JsonString>().isLinked()) ctx.fail("copy-not-independent", "doc.set(char[]) stored the buffer by address");
+    return;
+  }
+  if (name == "doc_assign_char_array") {
+    JsonDocument doc;
+    {
+      char buf[32];
+      strcpy(buf, "volatile text");
+      doc = buf;
+      memset(buf, '#', sizeof buf - 1);
+    }
+    if (doc.as<std::string>() != "volatile text") ctx.fail("copy-not-independent", "doc = char[] stored " + cs::quote_bytes(doc.as<std::string>()));
+    if (doc.as<JsonString>().isLinked()) ctx.fail("copy-not-independent", "doc = char[] stored the buffer by address");
     return;
   }
   if (name == "linked_string_as_double") {
